@@ -290,15 +290,9 @@ func (l *ExpandedLexer) nextToken() Token {
 			tok.Type = ARROW
 			tok.Literal = string(ch) + string(l.ch)
 			l.readChar()
-		} else if l.peekChar() == '-' {
-			// Handle -- for flags like --formal
-			l.readChar() // consume first -
-			l.readChar() // consume second -
-			// Now read the flag name
-			flagTok := l.readIdentifier()
-			tok.Type = flagTok.Type
-			tok.Literal = "--" + flagTok.Literal
 		} else {
+			// "--flag" is two MINUS tokens and an identifier, exactly as in the
+			// compact lexer: the parser recognises flags (and "- -x") from those
 			tok.Type = MINUS
 			tok.Literal = string(l.ch)
 			l.readChar()
